@@ -112,6 +112,9 @@ macro_rules! tree_test {
             }
             if n <= 3000 {
                 chk!($label, inp.clone(), "iter().collect()".to_string(), t.iter().collect::<Vec<_>>(), s.clone());
+                let k = rng.gen_range(0..n + 3);
+                chk!($label, inp.clone(), format!("iter().nth({}) / count / last / len / nth_back", k), (t.iter().nth(k), t.iter().count(), t.iter().last(), t.iter().len(), t.iter().nth_back(k)), (s.get(k).copied(), n, s.last().copied(), n, if k < n { Some(s[n - 1 - k]) } else { None }));
+                chk!($label, inp.clone(), "iter(): next, nth(usize::MAX), next".to_string(), { let mut it = t.iter(); let a = it.next(); let b = it.nth(usize::MAX); let c = it.next(); (a, b, c) }, (s.first().copied(), None, None));
                 chk!($label, inp.clone(), "iter().rev().collect()".to_string(), t.iter().rev().collect::<Vec<_>>(), s.iter().rev().copied().collect::<Vec<_>>());
             }
         }
@@ -210,6 +213,14 @@ fn qvector_test(rng: &mut StdRng) {
         if i < n { chk!("QVector", inp.clone(), format!("get_unchecked({})", i), unsafe { qv.get_unchecked(i) }, (vals[i] & 3) as u8); }
     }
     chk!("QVector", inp.clone(), "iter().collect()".to_string(), qv.iter().collect::<Vec<u8>>(), vals.iter().map(|&v| (v & 3) as u8).collect::<Vec<u8>>());
+    {
+        // provided iterator methods must agree with the sequence too (an overriding `nth`, `count`, `last`, `size_hint` is code)
+        let expv: Vec<u8> = vals.iter().map(|&v| (v & 3) as u8).collect();
+        let k = rng.gen_range(0..n + 3);
+        chk!("QVector", inp.clone(), format!("iter().nth({})", k), qv.iter().nth(k), expv.get(k).copied());
+        chk!("QVector", inp.clone(), "iter(): next, nth(usize::MAX), next".to_string(), { let mut it = qv.iter(); let a = it.next(); let b = it.nth(usize::MAX); let c = it.next(); (a, b, c) }, (expv.first().copied(), None, None));
+        chk!("QVector", inp.clone(), "iter().count() / last() / skip(1).count()".to_string(), (qv.iter().count(), qv.iter().last(), qv.iter().skip(1).count()), (n, expv.last().copied(), n.saturating_sub(1)));
+    }
     let mut it = qv.into_iter();
     for _ in 0..n { it.next(); }
     chk!("QVector", inp.clone(), "into_iter next after end (twice)".to_string(), (it.next(), it.next()), (None, None));
@@ -256,6 +267,12 @@ fn bitvector_test(rng: &mut StdRng) {
     }
     let n = model.len();
     chk!("BitVectorMut", hist.clone(), "iter().collect()".to_string(), bv.iter().collect::<Vec<bool>>(), model.clone());
+    {
+        let k = rng.gen_range(0..n + 3);
+        chk!("BitVectorMut", hist.clone(), format!("iter().nth({}) / count / last / len", k), (bv.iter().nth(k), bv.iter().count(), bv.iter().last(), bv.iter().len()), (model.get(k).copied(), n, model.last().copied(), n));
+        chk!("BitVectorMut", hist.clone(), "iter(): next, nth(usize::MAX), next".to_string(), { let mut it = bv.iter(); let a = it.next(); let b = it.nth(usize::MAX); let c = it.next(); (a, b, c) }, (model.first().copied(), None, None));
+        chk!("BitVectorMut", hist.clone(), format!("ones().nth({}) / zeros().count()", k), (bv.ones().nth(k), bv.zeros().count()), ((0..n).filter(|&i| model[i]).nth(k), (0..n).filter(|&i| !model[i]).count()));
+    }
     chk!("BitVectorMut", hist.clone(), "ones().collect()".to_string(), bv.ones().collect::<Vec<usize>>(), (0..n).filter(|&i| model[i]).collect::<Vec<usize>>());
     chk!("BitVectorMut", hist.clone(), "zeros().collect()".to_string(), bv.zeros().collect::<Vec<usize>>(), (0..n).filter(|&i| !model[i]).collect::<Vec<usize>>());
     let p = rng.gen_range(0..n + 3);
